@@ -108,6 +108,13 @@ func (o Op) String() string {
 		}
 		return "archive[" + strings.Join(ms, ",") + "]"
 	case "update":
+		if len(o.Members) > 0 {
+			ms := []string{fmt.Sprintf("file:%s:%d", o.A, o.Len)}
+			for _, m := range o.Members {
+				ms = append(ms, fmt.Sprintf("%s:%s:%d", m.K, m.A, m.Len))
+			}
+			return "update[" + strings.Join(ms, ",") + "]"
+		}
 		return fmt.Sprintf("update(%q,%d %s)", o.A, o.Len, o.Dist)
 	default:
 		return fmt.Sprintf("%s(%q)", o.K, o.A)
@@ -297,6 +304,13 @@ func execOp(rig *Rig, o Op) Outcome {
 		for _, m := range o.Members {
 			if m.K == "dir" {
 				ms = append(ms, dirMember(m.A, os.FileMode(m.Perm), mt))
+			} else if m.K == "nofile" {
+				m := m
+				fc := fileMember(m.A, m.content(), os.FileMode(m.Perm), mt)
+				fc.GetFile = func() (io.ReadSeekCloser, error) {
+					return nil, &os.PathError{Op: "open", Path: m.A, Err: os.ErrPermission}
+				}
+				ms = append(ms, fc)
 			} else {
 				ms = append(ms, staleMember(m.A, m.content(), os.FileMode(m.Perm), mt, m.N))
 			}
@@ -326,7 +340,18 @@ func execOp(rig *Rig, o Op) Outcome {
 		if o.Mt != 0 {
 			mt = time.Unix(o.Mt, 0)
 		}
-		if _, err := rig.WOps.Update(membersSrc([]config.FileConfig{staleMember(o.A, o.content(), os.FileMode(o.Perm), mt, o.N)}), rig.Cfg.Level, true, false); err != nil {
+		ums := []config.FileConfig{staleMember(o.A, o.content(), os.FileMode(o.Perm), mt, o.N)}
+		for _, m := range o.Members {
+			m := m
+			fc := fileMember(m.A, m.content(), os.FileMode(m.Perm), mt)
+			if m.K == "nofile" {
+				fc.GetFile = func() (io.ReadSeekCloser, error) {
+					return nil, &os.PathError{Op: "open", Path: m.A, Err: os.ErrPermission}
+				}
+			}
+			ums = append(ums, fc)
+		}
+		if _, err := rig.WOps.Update(membersSrc(ums), rig.Cfg.Level, true, false); err != nil {
 			return failOut("update", err)
 		}
 	case "hseq":
@@ -512,6 +537,9 @@ func applyModel(m *Model, o Op) (MOut, Outcome) {
 			}
 		}
 		for _, mem := range o.Members {
+			if mem.K == "nofile" {
+				return fail("a source of the batch cannot be opened"), Outcome{} // the members before it stay archived
+			}
 			if mem.K == "dir" {
 				m.N[mem.A] = &MNode{Dir: true, Perm: mem.Perm & 0o777}
 			} else {
@@ -530,6 +558,19 @@ func applyModel(m *Model, o Op) (MOut, Outcome) {
 		n.Perm = o.Perm & 0o777
 		n.Adopted = false
 		n.Mtime, n.Atime = 0, 0
+		for _, mem := range o.Members {
+			if mem.K == "nofile" {
+				return fail("a source of the batch cannot be opened"), Outcome{} // the members before it stay updated
+			}
+			n2, mo2 := m.lookup(mem.A)
+			if n2 == nil {
+				return mo2, Outcome{}
+			}
+			n2.Data = mem.content()
+			n2.Perm = mem.Perm & 0o777
+			n2.Adopted = false
+			n2.Mtime, n2.Atime = 0, 0
+		}
 		return ok(), Outcome{}
 	case "opdelete":
 		if _, ok2 := m.N[o.A]; !ok2 {
